@@ -506,6 +506,31 @@ def oracle_c12(res, i):
     if c == 'fstates' and out.startswith('#fstates'):
         limit = int(_cfg(res, 'dirty', '33554432'))
         cur = _parse_f(out)
+        # the un-synced counter against the trace: bytes written to a blob file beyond the size published by its last
+        # SUCCESSFUL sync (for files created in this session, so that every write is in the trace)
+        end, pub, created = {}, {}, set()
+        for _, e in _events_upto(res, i):
+            kind, rest = e[0], e[1:]
+            failed = '!fail' in rest or '!short' in rest
+            f = rest.split('!')[0].split(':')
+            name = f[0]
+            if not name.startswith('b'):
+                continue
+            if kind == 'C':
+                created.add(name)
+                end[name], pub[name] = 0, 0
+            elif kind == 'O':
+                created.discard(name)
+            elif kind == 'W' and name in created and not failed:
+                end[name] = max(end[name], int(f[1]) + int(f[2]))
+            elif kind == 'S' and name in created and not failed:
+                pub[name] = max(pub[name], int(f[1]))
+        faulty = any(l.split()[0] == 'fault' and 'write' in l.split()[1:2] for l in res['script'][:i])
+        for b in cur:
+            name = 'b' + b[0]
+            if name in created and not faulty and int(b[3]) != end[name] - min(pub[name], end[name]):
+                return (f'MISMATCH blob {b[0]}: the storage counts {b[3]} un-synced bytes, the trace shows '
+                        f'{end[name] - min(pub[name], end[name])} (written up to {end[name]}, last successful sync published {pub[name]})')
         act = [b for b in cur if b[1] == 'a']
         # while an injected fault is armed a sync may fail legitimately; the bound is due again after the first
         # write / delete that follows `clearfaults`
